@@ -20,7 +20,9 @@ EXTENDS Integers, Sequences, FiniteSets, TLC
 CONSTANTS Running,     \* operation names available
           MaxConc,     \* how many of them run concurrently (every subset of that size is explored)
           Fixed_F4, Fixed_F5, Fixed_F8, Fixed_F18,
-          WhipConnected   \* the WHIP client has a connection (Close then asks for the member list)
+          WhipConnected,  \* the WHIP client has a connection (Close then asks for the member list)
+          Async_Autokick, \* TRUE (the code): autoLockKick hands the kicks to a goroutine; FALSE: it would kick under g.mu
+          History_Copy    \* TRUE (the code): GetChatHistory copies under g.mu; FALSE: it would hand out the live buffer
 
 A(l) == <<"acq", l>>
 R(l) == <<"rel", l>>
@@ -81,8 +83,19 @@ Stats == <<A("groups"), Rd("groupsmap"), R("groups"), A("groups"), Rd("groupsmap
 \* reload of a changed description (group.Add(name, desc) / Update)
 Reload == AddGroup
 
-\* chat history access
+\* chat history access: AddToChatHistory / ClearChatHistory, and what a join does with GetChatHistory (it walks the result
+\* without any lock while it writes the replay to its socket)
 History == <<A("g"), Rd("desc"), Wr("history"), R("g")>>
+HistoryReplay ==
+  IF History_Copy THEN <<A("g"), Rd("desc"), Rd("history"), R("g")>>
+  ELSE <<A("g"), Rd("desc"), R("g"), Rd("history")>>
+
+\* the last operator leaves an autokick group in which the WHIP client is a member: DelClient's autoLockKick decides to
+\* kick everybody; the WHIP client's Kick is Close, which ends in DelClient
+OpLeaves ==
+  IF Async_Autokick
+  THEN DelClientBody \o WhipClose          \* the kicks run in their own goroutine, after the critical section
+  ELSE <<A("g"), Rd("clients"), Wr("clients"), Wr("timestamp")>> \o AutoLockKick \o WhipClose \o <<R("g")>>
 
 Code(op) ==
   CASE op = "AddClient" -> AddClient
@@ -95,6 +108,8 @@ Code(op) ==
     [] op = "Stats" -> Stats
     [] op = "Reload" -> Reload
     [] op = "History" -> History
+    [] op = "HistoryReplay" -> HistoryReplay
+    [] op = "OpLeaves" -> OpLeaves
 
 VARIABLES pc,     \* op -> index of the next instruction (Len+1 = finished)
           holder  \* lock -> op holding it, or "none"
